@@ -952,11 +952,15 @@ class NetworkGraph(AbstractBaseIR):
                     weighting = ""
                 else:
                     weighting = f" * {w_str}"
-                    args[w_str] = {'vtype': 'constant', 'dtype': 'float', 'value': weight if ssize > 1 else weight[0]}
+                    args[w_str] = {'vtype': 'constant', 'dtype': 'float',
+                                   'value': weight if (ssize > 1 or len(weight) > 1) else weight[0]}
 
-                # get final source and target strings
-                s_str_final = _get_indexed_var_str(s_str, sidx, ssize, reduce=m == 1 and tsize > 1 and n == 1,
-                                                   idx_str=sidx_str, arg_dict=args)
+                # get final source and target strings (a scalar source is not indexed: it broadcasts over its targets)
+                if ssize <= 1 and len(sidx) > 1:
+                    s_str_final = s_str
+                else:
+                    s_str_final = _get_indexed_var_str(s_str, sidx, ssize, reduce=m == 1 and tsize > 1 and n == 1,
+                                                       idx_str=sidx_str, arg_dict=args)
                 t_str_final = _get_indexed_var_str(t_str, tidx, tsize, reduce=tsize > 1 or ssize < tsize,
                                                    idx_str=tidx_str, arg_dict=args)
 
